@@ -49,6 +49,14 @@ CHECKS = {
    text="A sender model uploads generated bodies (chunking, padding, empty frames, interleaving, streams ending in stream errors with frames in flight), repeating the pattern until more than two connection windows have moved; it sends only when the ledger built from the receiver's SETTINGS/WINDOW_UPDATE frames allows. Violations: increment 0, window above 2^31-1, or a quiescent receiver while the sender cannot send its next frame on a stream that is still open (which is how cumulative credit leaks surface). Server half only so far (client half is listed in DESIGN as a later lane). Exploration only.",
    note="Trusted: the sender model's ledger; hook counters for quiescence.",
    ref="6.2 C14"),
+ "C10": dict(technique="property-based testing (rapid) of offence placement with fault behaviours of the peer (silent / keeps sending / floods / stops reading / closes); invariants over the observed history (GOAWAY vs handler log), bounded-time return with goroutine-dump evidence",
+   text="A catalogue of 24 connection-scoped offences (plus idle-timeout shutdown racing requests) is placed inside generated well-formed traffic with answered, in-flight (parked handlers) and trailing requests and five trailing behaviours of the peer. Checked: GOAWAY last-stream-id never below a dispatched stream, code within the RFC's set (or bare close), nothing after the offence dispatched, ServeConn returns with handlers released and leaves no goroutine. A missed 6 s bound is a violation only with a goroutine dump proving a permanent block (hand-off to an exited loop, Write to a peer the harness keeps from reading); otherwise inconclusive. Exploration only; internal schedules are sampled.",
+   note="Trusted: appendix C of DESIGN for allowed codes; hook counters; Go runtime goroutine dumps as evidence.",
+   ref="6.2 C10, appendix C"),
+ "C13": dict(technique="property-based testing (rapid) of adversarial frame schedules with hook gauges as invariants and a metamorphic relation (schedule played 1x vs 4x)",
+   text="Generated attack schedules (rapid reset with parked handlers, half-open streams, PRIORITY on new ids, CONTINUATION floods incl. a never-completed string, oversized / mis-declared bodies, oversized header lists, PING/SETTINGS floods) against small limits; invariants at every quiescent point: concurrent handlers <= MaxConcurrentStreams, no handler for a request over a limit, stream table / closed-id memory / buffered header and body octets within limit-derived bounds (high-water marks from the stream loop's own gauges); playing the schedule four times must leave the gauges where one pass leaves them. Exploration only.",
+   note="Trusted: gauges published by the hook at the top of each stream-loop iteration; the bounds are derived from the configured limits plus one frame.",
+   ref="6.2 C13"),
 }
 PENDING = {}  # id -> reason, for properties not claimed (yet)
 
